@@ -228,7 +228,9 @@ Section Field.
         split; [exact I|].
         constructor; simpl.
         * exists [], []. rewrite app_nil_r. repeat split; [constructor | apply sub_perm_refl].
-        * eexists. split; [reflexivity|]. repeat constructor.
+        * eexists. split; [reflexivity|]. split; [repeat constructor|].
+          intros [|[|k]] pr X; simpl in X; try discriminate. injection X as <-. simpl.
+          unfold np, s1. simpl. lia.
         * intros i [<-|[]]. right. unfold np; simpl. rewrite app_length; simpl. unfold id, s1; simpl; lia.
         * intros _. repeat constructor. intros [].
         * auto.
@@ -298,7 +300,7 @@ Section Field.
     split; [apply gle_refl|]. split; [split; simpl; [apply hle_refl | apply proms_le_refl]|].
     split; [exact I|]. constructor; simpl.
     - exists [], []. rewrite app_nil_r. repeat split; [constructor | apply sub_perm_refl].
-    - exists []. rewrite app_nil_r. split; auto.
+    - exists []. rewrite app_nil_r. split; auto. split; auto. intros [|k] pr X; discriminate.
     - intros i [].
     - intros _. constructor.
     - exact B.
